@@ -70,3 +70,16 @@ Print Assumptions C15_residual_is_square_q2.
 Print Assumptions C15_residual_at_solution_any_q.
 Print Assumptions C15_remix_invariant.
 Print Assumptions C15_siso_bounds.
+Print Assumptions C15_residual_is_square_q1.
+Print Assumptions C15_residual_nonneg.
+Print Assumptions C15_siso_residual.
+Print Assumptions C15_exact_combination_zero.
+Print Assumptions C15_permutation_invariant.
+Print Assumptions C15_residual_is_sum_of_squares.
+Print Assumptions C15_residual_physical_any_q.
+Print Assumptions C15_exact_combination_zero_any_q.
+Print Assumptions C15_input_order_independent.
+Print Assumptions C15_solution_is_optimal.
+Print Assumptions C15_all_solutions_same_residual.
+Print Assumptions C15_expression_instance_q1.
+Print Assumptions C15_expression_instance_q2.
